@@ -1172,6 +1172,16 @@ class FnFlow:
                 ok = any(x[1] in ccls and x[2] in scls for x in W.sel('LF')) or (any(W.has('SlotRoot', s_) for s_ in scls) and any(x[1] in ccls for x in W.sel('LFR')))
             self.ob('ROLE', loc, 'role:%s:%s' % (tg.short, role[1] + '-in-' + role[2]), ok,
                     'node `%s` passed to %s() is not known to be the node stored in the slot passed for `%s`: the callee replaces the content of that slot' % (self.nm(c), tg.short, role[2]))
+        elif role[0] == 'DirtyUnder':
+            v = cvar(role[1])
+            cs = cvar(role[2])
+            if v is None or cs is None or isinstance(v, tuple):
+                return
+            cls_ = W.same_class(v)
+            ccls = W.same_class(cs) if not isinstance(cs, tuple) else {cs}
+            ok = any(x[1] in cls_ and x[2] in ccls for x in W.sel('Under'))
+            self.ob('ROLE', loc, 'role:%s:%s' % (tg.short, role[1] + '-under-' + role[2]), ok,
+                    'node pointer `%s` passed to %s() was not read under the read section passed for `%s` (`%s`): the callee validates that section before it trusts the pointer and ends it when it has locked the node - with another section it validates the wrong lock word and consumes a section the caller still uses (in assertion-enabled builds the consumed section has no lock pointer any more: the next use crashes)' % (self.nm(v), tg.short, role[2], self.nm(cs) if not isinstance(cs, tuple) else str(cs)))
         elif role[0] == 'GIR':
             cs = cvar(role[1])
             ev = cvar(role[2]) if role[2] in pn else None
